@@ -747,6 +747,32 @@ fn check_c19(trace: &Trace, cov: &mut Coverage, bom_ignored: bool) -> Result<(),
             Ok(Snapshot::take(&g))
         };
         let with = run_screen(&feeds)?;
+        // every 4th case: the same feeds while a neighbouring terminal on the same thread is in
+        // the middle of an OSC string of its own - titles are per terminal
+        if (trace.seed ^ trace.index) % 4 == 1 {
+            let neighbour_screen = Arc::new(Mutex::new(Screen::new(5, 2)));
+            let mut neighbour = Parser::new(neighbour_screen.clone());
+            neighbour.feed("n\u{1b}]2;neigh".to_string());
+            let screen = Arc::new(Mutex::new(Screen::new(trace.columns, trace.lines)));
+            {
+                let mut fe = crate::exec::FrontEnd::new(trace.front, trace.utf8, screen.clone());
+                for (i, f) in feeds.iter().enumerate() {
+                    fe.feed(f);
+                    neighbour.feed(if i % 2 == 0 { "bour".to_string() } else { "\u{7}\u{1b}]1;x".to_string() });
+                }
+            }
+            let g = screen.lock().map_err(|_| Violation::new("C19", "C19/poisoned", "mutex poisoned", 0))?;
+            let beside = Snapshot::take(&g);
+            cov.hit("neighbour_terminal_runs");
+            if let Some(d) = with.diff(&beside, &[]) {
+                return Err(Violation::new(
+                    "C19",
+                    "C19/neighbour_terminal_changes_state",
+                    format!("the same feeds next to another terminal that is inside an OSC string of its own: {}", d),
+                    0,
+                ));
+            }
+        }
         let mut title = String::new();
         let mut icon = String::new();
         // replay the reference events that lie before `limit`: recompute on the prefix
